@@ -102,10 +102,9 @@ class M14:
     def out(self):
         return self.ex.out
 
-    def new(self, sec, hp, delta):
+    def new(self, sec, hp, delta, own):
         j = self.ex.w.j
         st = self.ex.w.new_stack()
-        own = 0x80 + len(self.nodes)
         ca = j.ControllerApplication(j.Name(value=0x5000 + len(self.nodes)), own, bypass_address_claim=True)
         st.ecu.add_ca(controller_application=ca)
         nd = types.SimpleNamespace(st=st, ca=ca, own=own, pendC=None, pendS=None, seed=0, accept=True, apps={})
@@ -163,7 +162,7 @@ class M14:
     def step(self, t):
         op = t[0]
         if op == 'm14.new':
-            self.new(int(t[1]) != 0, int(t[2]) != 0, int(t[3]))
+            self.new(int(t[1]) != 0, int(t[2]) != 0, int(t[3]), int(t[4]))
             return
         nd = self.nodes[int(t[1])]
         from .pyexec import parse_list
